@@ -356,6 +356,11 @@ def judge_pairs(ctx, pairs, model=True):
             ctx.fail('spec', case, f"scalar call raised {type(e).__name__}: {e}", dict(site='gcd', what='raises'))
             ctx.case(case)
             continue
+        if not (math.isfinite(g) and math.isfinite(grev) and math.isfinite(b)):
+            ctx.fail('spec', case, f"gcd/bear returned a non-finite value: gcd={g!r}, reversed={grev!r}, bear={b!r}",
+                     dict(site='gcd', what='non-finite'))
+            ctx.case(case, nontrivial_key=('pair', ra1, dec1, ra2, dec2))
+            continue
         rd, rpa, rsin = ref_gcd_pa(ra1, dec1, ra2, dec2)
         rdf = float(rd)
         sreg = regime_of_sep(rdf)
@@ -453,6 +458,12 @@ def judge_translate(ctx, items, model=True):
             ctx.case(case)
             continue
         case.update(ra_out=ra2, dec_out=dec2)
+        if not (math.isfinite(ra2) and math.isfinite(dec2)):
+            ctx.fail('spec', case, f"translate({ra!r}, {dec!r}, {r!r}, {t!r}) = {(ra2, dec2)!r} is not a point of the sphere",
+                     dict(site='translate', what='non-finite'))
+            ctx.count('translate:non-finite')
+            ctx.case(case, nontrivial_key=('translate', ra, dec, r, t))
+            continue
         rd, rpa, rsin = ref_gcd_pa(ra, dec, ra2, dec2)
         cd1 = abs(math.cos(math.radians(dec)))
         cd2 = abs(math.cos(math.radians(dec2)))
@@ -466,9 +477,10 @@ def judge_translate(ctx, items, model=True):
         sn = float(rsin)
         tolb = None
         if 0 < r < 180 and cd1 > 1e-6 and sn > 1e-12:
-            tolb = 1e-9 + 3e-13 / sn + 3e-13 / (sn * max(cd2, 1e-9)) * min(1.0, cd2 * 1e9)
-            tolb = 1e-9 + 3e-13 / sn + 3e-14 / (max(cd2, 1e-9) * max(sn, 1e-12)) * sn  # dec error seen at angle
-            tolb = 1e-9 + 3e-13 / sn + 3e-14 / max(cd2, 1e-9) / max(sn, 1e-12) * min(sn, 1.0)
+            # conditioning: y,x of the two arctan2 carry ~1e-16 absolute error; the RA offset is then uncertain by
+            # 1e-16/(cos dec * cos dec'), the new declination by 1e-16/cos dec'; seen from the start point at
+            # distance r these move the bearing by that amount * cos dec' / sin r  (all in radians)
+            tolb = 1e-9 + 3e-13 / sn + 3e-14 / (max(cd2, 1e-9) * sn) + 3e-14 / (cd1 * sn)
             eb = angdiff(rpa, t)
             if eb > tolb:
                 ctx.fail('spec', case, f"initial bearing start->translate = {float(rpa)!r}, requested theta={t!r} "
@@ -510,6 +522,8 @@ def round_exact(q):
 
 def near_carry(x, unit):
     """is |x| (in `unit`s per degree of the top field) within CARRY_DEG of a whole minute of the middle field?"""
+    if not math.isfinite(x):
+        return True
     y = abs(x) * unit * 60.0          # in minutes of the middle field
     return abs(y - round(y)) < CARRY_DEG * unit * 60.0
 
@@ -693,7 +707,7 @@ CORPUS_PAIRS = [
 ]
 CORPUS_DMS = [10.9999999, 0.9999999, 59.99999999, -10.9999999, 89.9999999, float('nan'), float('inf'), -0.12345, 80.0]
 CORPUS_HMS = [14.9999999, 359.9999999, -1e-20, 23.5678, -15.0, 15.0, float('nan'), float('-inf'), 360.0]
-CORPUS_TRANSLATE = [(0.0, 0.0, 1.0, 0.0), (45.0, 89.75, 0.5, 0.0), (12.0, -45.0, 1.0, 180.0), (33.0, 90.0, 10.0, 77.0),
+CORPUS_TRANSLATE = [(10.0, -8.0, 82.0, 180.0), (10.0, 82.0, 172.0, 180.0), (0.0, 0.0, 1.0, 0.0), (45.0, 89.75, 0.5, 0.0), (12.0, -45.0, 1.0, 180.0), (33.0, 90.0, 10.0, 77.0),
                     (33.0, -90.0, 180.0, 10.0), (10.0, 20.0, 0.0, 123.0), (10.0, 20.0, 180.0, 123.0), (200.0, 60.0, 30.0, 0.0)]
 
 
@@ -716,7 +730,7 @@ def run_corpus(ctx):
 def sizes(ctx, wide=False):
     if ctx.quick and not wide:
         return dict(pairs=1500, triples=400, translate=1200, sexa=4000)
-    return dict(pairs=14000, triples=4000, translate=12000, sexa=60000)
+    return dict(pairs=40000, triples=12000, translate=40000, sexa=200000)
 
 
 def run(ctx):
